@@ -1,6 +1,7 @@
 import MosnVerif.Lemmas.DownstreamProps
 import MosnVerif.Lemmas.Downstream.Parked
 import MosnVerif.Lemmas.Downstream.Prov
+import MosnVerif.Lemmas.Downstream.Backoff9
 /-!
 # C03 — every request ends exactly once, with one reply, in bounded time (property theorems only)
 
@@ -453,5 +454,68 @@ example : ((fun (s : S) => (s.gtGen, s.global, s.perTry, s.trace))
 /-- … whereas a request whose first attempt was refused half-way is armed by its first retry (the only arming a retry does) -/
 example : ((fun (s : S) => (s.gtGen, s.global))
     (reach { hasData := true } 0 0 ([.poolFail .connfail] ++ List.replicate 12 .work))) = (1, true) := by decide
+
+/-! ## proxy9: `terminate during the back-off` (labels of `Model/DownstreamBackoff.lean`) -/
+
+/-- **terminate_in_backoff_accepted_iff**: on every schedule that leaves the worker in `doRetry`'s back-off sleep, an
+asynchronous `TerminateStream(code)` delivered there (regenerated step program `Gen.ProxyTerminate`) is accepted exactly when
+no response headers are stored (the attempt was given up for a reset / per-try timeout, not for its status) and the response
+slot is free (the global timer has not fired meanwhile); the call itself writes nothing to the trace, and an accepted call
+leaves the header-only local reply `code` pending with the worker still in the Retry phase. -/
+theorem terminate_in_backoff_accepted_iff (c : Cfg) (ar aq : Nat) (l : List Label) (code : Nat)
+    (hb : backoff (reach c ar aq l) = true) :
+    (terminateB c (reach c ar aq l) code).trace = (reach c ar aq l).trace ∧
+    ((terminateB c (reach c ar aq l) code).direct = true ↔
+      ((reach c ar aq l).resp.isSome = false ∧ (reach c ar aq l).urr = false)) ∧
+    ((terminateB c (reach c ar aq l) code).direct = true →
+      (terminateB c (reach c ar aq l) code).respCode = code ∧
+      (terminateB c (reach c ar aq l) code).resp = some ⟨false, false⟩) := by
+  have h := terminateB_spec c ar aq (reach c ar aq l) code (inv_run c ar aq l) hb
+  exact ⟨h.1, h.2.2.2.2.2.2.2.1, fun hd => ⟨(h.2.2.2.2.2.2.2.2 hd).2.1, (h.2.2.2.2.2.2.2.2 hd).2.2⟩⟩
+
+/-- **terminate_in_backoff_not_forwarded** (C14: a denied request is never forwarded; C03: one reply): on every schedule
+that leaves the worker in the back-off, after an ACCEPTED `TerminateStream` there (client still connected) the Retry pass
+(`workB`: `doRetry` with the regenerated guard `retrySkipsOnDirect`, then `processError`) creates NO upstream attempt — no
+`NewStream`, admitted or refused, no new client stream — and hands the pending local reply to the response pass (the worker
+leaves the Retry phase).  Needs `Gen.ProxyPhase.retrySkipsOnDirect = true`: without the test in `doRetry` the proof does
+not build (negation witness below). -/
+theorem terminate_in_backoff_not_forwarded (c : Cfg) (ar aq : Nat) (l : List Label) (code : Nat)
+    (hb : backoff (reach c ar aq l) = true)
+    (hacc : (terminateB c (reach c ar aq l) code).direct = true)
+    (hcli : (reach c ar aq l).downReset = false) :
+    (workB c (terminateB c (reach c ar aq l) code)).streams.length = (reach c ar aq l).streams.length ∧
+    (workB c (terminateB c (reach c ar aq l) code)).trace.filter attemptEv = (reach c ar aq l).trace.filter attemptEv ∧
+    (workB c (terminateB c (reach c ar aq l) code)).phase ≠ .Retry := by
+  have h := terminateB_spec c ar aq (reach c ar aq l) code (inv_run c ar aq l) hb
+  obtain ⟨htr, hst, hph, hrun, hcl, hdr, _, _, himp⟩ := h
+  have hw := workB_direct_no_attempt c (terminateB c (reach c ar aq l) code) hrun hph hacc hcl (himp hacc).1 (hdr.trans hcli)
+  exact ⟨by rw [hw.1, hst], by rw [hw.2.1, htr], hw.2.2⟩
+
+/-- the machine's own runs are untouched by the extension: `workB = work` on every reachable state -/
+theorem backoff_extension_conservative (c : Cfg) (ar aq : Nat) (l : List Label) :
+    workB c (reach c ar aq l) = work c (reach c ar aq l) := workB_eq_work c ar aq _ (inv_run c ar aq l)
+
+/-- non-vacuity: attempt 0 reset (connection failed, retried), the worker sleeps, TerminateStream(418) lands, the worker runs
+on: ONE attempt, the client gets the 418, everything is given back -/
+example : ((fun (s : S) => (s.trace, s.cleaned, s.upActive, s.retries))
+    (settleB { retryOn := true, numRetries := 1, maxRetries := 1 } 8
+      (terminateB { retryOn := true, numRetries := 1, maxRetries := 1 }
+        (reach { retryOn := true, numRetries := 1, maxRetries := 1 } 0 0
+          (List.replicate 12 .work ++ [.upReset 0 .StreamConnectionFailed, .work])) 418))) =
+    ([.un 0, .uh 0 true, .dh 418 true, .log 418 0x2000], true, 0, 0) := by decide
+/-- negation witness: `doRetry` WITHOUT the test (the machine's plain `work`) sends the denied request upstream again —
+attempt 1 is created after the accepted TerminateStream — and nobody resets it: the exchange ends with the stream live -/
+example : ((fun (s : S) => (s.trace, s.cleaned, s.upActive))
+    (settle { retryOn := true, numRetries := 1 } 8
+      (terminateB { retryOn := true, numRetries := 1 }
+        (reach { retryOn := true, numRetries := 1 } 0 0
+          (List.replicate 12 .work ++ [.upReset 0 .StreamConnectionFailed, .work])) 418))) =
+    ([.un 0, .uh 0 true, .un 1, .uh 1 true, .dh 418 true, .log 418 0x2000], true, 1) := by decide
+/-- a retry because of the STATUS keeps the stale response headers: the call is refused, the retry goes on -/
+example : (terminateB { retryOn := true, numRetries := 1 }
+    (reach { retryOn := true, numRetries := 1 } 0 0
+      (List.replicate 12 .work ++ [.upResp 0 503 false false] ++ List.replicate 3 .work)) 418).direct = false ∧
+    backoff (reach { retryOn := true, numRetries := 1 } 0 0
+      (List.replicate 12 .work ++ [.upResp 0 503 false false] ++ List.replicate 3 .work)) = true := by decide
 
 end MosnVerif.Props.C03
